@@ -14,7 +14,7 @@
 //	                                         or an unknown request id (x)                     -> <events>
 //
 // <events> = everything observable since the previous op, once the system is quiescent:
-// sent=<new:<skip>|cancel|update,…> prog=<n> errs=<…> w=<link=content,…> closed=<0|1>
+// sent=<new:<skip>|cancel|update,…> prog=<n> blk=<cid><l|r><index>,… errs=<…> w=<link=content,…> closed=<0|1>
 package requestor
 
 import (
@@ -186,6 +186,12 @@ type sentReq struct {
 	r gsmsg.GraphSyncRequest
 }
 
+type blockSeen struct {
+	link   cid.Cid
+	onWire uint64
+	index  int64
+}
+
 type storeWrite struct {
 	link    cid.Cid
 	data    []byte
@@ -205,6 +211,7 @@ type Sys struct {
 	prog       []graphsync.ResponseProgress
 	errs       []error
 	writes     []storeWrite
+	blks       []blockSeen
 	progClosed bool
 	errClosed  bool
 	started    bool
@@ -243,11 +250,20 @@ func NewSys(w *World) *Sys {
 	s.tq = taskqueue.NewTaskQueue(s.ctx)
 	s.RM = requestmanager.New(s.ctx, persistenceoptions.New(), ls, hooks.NewRequestHooks(), hooks.NewResponseHooks(),
 		listeners.NewNetworkErrorListeners(), listeners.NewRequestProcessingListeners(), s.tq, nopConnManager{}, 0, nil)
-	ex := executor.NewExecutor(s.RM, hooks.NewBlockHooks())
+	bh := hooks.NewBlockHooks()
+	bh.Register(s.blockHook)
+	ex := executor.NewExecutor(s.RM, bh)
 	s.RM.SetDelegate(&peerHandler{s})
 	s.RM.Startup()
 	s.tq.Startup(1, ex)
 	return s
+}
+
+// blockHook observes every block the traversal loaded (graphsync.OnIncomingBlockHook)
+func (s *Sys) blockHook(p peer.ID, rd graphsync.ResponseData, bd graphsync.BlockData, ha graphsync.IncomingBlockHookActions) {
+	s.mu.Lock()
+	s.blks = append(s.blks, blockSeen{bd.Link().(cidlink.Link).Cid, bd.BlockSizeOnWire(), bd.Index()})
+	s.mu.Unlock()
 }
 
 type nopConnManager struct{}
@@ -356,13 +372,14 @@ type Events struct {
 	Errs   []error
 	Writes []storeWrite
 	Closed bool
+	Blks   []blockSeen
 }
 
 func (s *Sys) Drain() Events {
 	s.mu.Lock()
 	defer s.mu.Unlock()
-	e := Events{s.sent, s.prog, s.errs, s.writes, s.progClosed && s.errClosed}
-	s.sent, s.prog, s.errs, s.writes = nil, nil, nil, nil
+	e := Events{s.sent, s.prog, s.errs, s.writes, s.progClosed && s.errClosed, s.blks}
+	s.sent, s.prog, s.errs, s.writes, s.blks = nil, nil, nil, nil, nil
 	return e
 }
 
@@ -418,7 +435,14 @@ func (w *World) render(e Events) string {
 			sent = append(sent, pfx+"update")
 		}
 	}
-	var errs, ws []string
+	var errs, ws, bs []string
+	for _, x := range e.Blks {
+		lr := "l"
+		if x.onWire > 0 {
+			lr = "r"
+		}
+		bs = append(bs, fmt.Sprintf("%s%s%d", w.cidName(x.link), lr, x.index))
+	}
 	for _, x := range e.Errs {
 		errs = append(errs, w.errName(x))
 	}
@@ -431,7 +455,7 @@ func (w *World) render(e Events) string {
 		}
 		return strings.Join(l, ",")
 	}
-	return fmt.Sprintf("sent=%s prog=%d errs=%s w=%s closed=%d", j(sent), len(e.Prog), j(errs), j(ws), b2i(e.Closed))
+	return fmt.Sprintf("sent=%s prog=%d blk=%s errs=%s w=%s closed=%d", j(sent), len(e.Prog), j(bs), j(errs), j(ws), b2i(e.Closed))
 }
 
 func b2i(b bool) int {
